@@ -18,18 +18,9 @@
 #define VP_FS_NFILES 5
 #define VP_FS_NHANDLES (VP_FS_NFILES + 1)   /* one stream per file: the handle of a path is a constant */
 
-struct vp_node
-{
-   bool          exists;
-   unsigned      len;
-   unsigned char d[VP_FS_L + 1];
-};
-struct vp_md5node
-{
-   bool          exists;
-   unsigned      len;
-   unsigned char d[VP_FS_MD5LEN];
-};
+/* flat arrays (no arrays of structs holding arrays: keeps CBMC's field-sensitive memory model simple) */
+#define VP_FS_CAP ((VP_FS_L + 1) > VP_FS_MD5LEN ? (VP_FS_L + 1) : VP_FS_MD5LEN)
+struct vp_node_view { bool exists; unsigned len; unsigned char *d; };
 struct vp_handle
 {
    int      slot;      /* index into vp_fs, VP_FS_NFILES = the md5 side file */
@@ -40,8 +31,9 @@ struct vp_handle
    unsigned fail_after; /* a write fault scheduled for this handle: writes fail once this many bytes are in the file */
 };
 static const char *vp_fs_name[VP_FS_NFILES + 1];
-static vp_node     vp_fs[VP_FS_NFILES];
-static vp_md5node  vp_fs_md5;
+static bool          vp_n_exists[VP_FS_NFILES + 1];
+static unsigned      vp_n_len[VP_FS_NFILES + 1];
+static unsigned char vp_n_data[(VP_FS_NFILES + 1) * VP_FS_CAP];
 static vp_handle   vp_fh[VP_FS_NHANDLES];
 static char        vp_console_obj;                 /* its address stands for stdout/stderr */
 static unsigned    vp_ncalls;                      /* libc-level file operations so far */
@@ -80,10 +72,7 @@ static inline bool vp_tick()
          if (vp_fh[i].open && vp_fh[i].wr)
          {
             unsigned keep = vp_crash_keep;   /* chosen once, up front (fewer solver variables than a choice per call) */
-            if (keep < ((vp_fh[i].slot == VP_FS_NFILES) ? vp_fs_md5.len : vp_fs[vp_fh[i].slot].len))
-            {
-               if (vp_fh[i].slot == VP_FS_NFILES) { vp_fs_md5.len = keep; } else { vp_fs[vp_fh[i].slot].len = keep; }
-            }
+            if (keep < vp_n_len[vp_fh[i].slot]) { vp_n_len[vp_fh[i].slot] = keep; }
          }
       }
    }
@@ -100,27 +89,19 @@ static inline vp_handle *vp_h(FILE *f)
    if (!h->open) { vp_abort("stdio call on a FILE* that is not open"); }
    return h;
 }
-static inline bool vp_node_exists(int s) { return (s == VP_FS_NFILES) ? vp_fs_md5.exists : vp_fs[s].exists; }
-static inline unsigned vp_node_len(int s) { return (s == VP_FS_NFILES) ? vp_fs_md5.len : vp_fs[s].len; }
+static inline bool vp_node_exists(int s) { return vp_n_exists[s]; }
+static inline unsigned vp_node_len(int s) { return vp_n_len[s]; }
 static inline unsigned vp_node_cap(int s) { return (s == VP_FS_NFILES) ? VP_FS_MD5LEN : VP_FS_L; }
-static inline unsigned char vp_node_get(int s, unsigned i)
-{
-   if (s == VP_FS_NFILES) { return vp_fs_md5.d[i < VP_FS_MD5LEN ? i : 0]; }
-   return vp_fs[s].d[i <= VP_FS_L ? i : 0];
-}
+static inline unsigned char vp_node_get(int s, unsigned i) { return vp_n_data[(unsigned)s * VP_FS_CAP + (i < VP_FS_CAP ? i : 0)]; }
+static inline void vp_node_put(int s, unsigned i, unsigned char c) { if (i < VP_FS_CAP) { vp_n_data[(unsigned)s * VP_FS_CAP + i] = c; } }
 static inline void vp_node_append(int s, unsigned char c)
 {
-   if (s == VP_FS_NFILES)
-   {
-      if (vp_fs_md5.len >= VP_FS_MD5LEN) { vp_capacity("md5 side file longer than the model"); return; }
-      vp_fs_md5.d[vp_fs_md5.len++] = c;
-      return;
-   }
-   if (vp_fs[s].len >= VP_FS_L) { vp_capacity("file longer than VP_FS_L"); return; }
-   vp_fs[s].d[vp_fs[s].len++] = c;
+   if (vp_n_len[s] >= vp_node_cap(s)) { vp_capacity("file longer than the model allows"); return; }
+   vp_node_put(s, vp_n_len[s], c);
+   vp_n_len[s]++;
 }
-static inline void vp_node_set_len(int s, unsigned n) { if (s == VP_FS_NFILES) { vp_fs_md5.len = n; } else { vp_fs[s].len = n; } }
-static inline void vp_node_set_exists(int s, bool e) { if (s == VP_FS_NFILES) { vp_fs_md5.exists = e; } else { vp_fs[s].exists = e; } }
+static inline void vp_node_set_len(int s, unsigned n) { vp_n_len[s] = n; }
+static inline void vp_node_set_exists(int s, bool e) { vp_n_exists[s] = e; }
 
 extern "C" {
 FILE *fopen(const char *path, const char *mode)
@@ -278,10 +259,12 @@ int rename(const char *from, const char *to)
    if (!vp_dead) { vp_mutations++; }
    if (fail) { return -1; }
    if (a < 0 || b < 0 || a == VP_FS_NFILES || b == VP_FS_NFILES) { vp_unmodelled("rename of a path the harness did not declare"); return -1; }
-   if (!vp_fs[a].exists) { return -1; }
-   vp_fs[b] = vp_fs[a];            /* atomic replacement */
-   vp_fs[a].exists = false;
-   vp_fs[a].len    = 0;
+   if (!vp_n_exists[a]) { return -1; }
+   vp_n_exists[b] = true;            /* atomic replacement */
+   vp_n_len[b]    = vp_n_len[a];
+   for (unsigned i = 0; i <= VP_FS_L; i++) { vp_node_put(b, i, vp_node_get(a, i)); }
+   vp_n_exists[a] = false;
+   vp_n_len[a]    = 0;
    return 0;
 }
 int unlink(const char *path)
